@@ -189,6 +189,198 @@ def replay(case):
     return None
 
 
+# ----------------------------------------------------------------------------- comptime family
+# Programs whose compilation involves *Python values*: `comptime(V)` / `py(V)` expressions over module-level
+# values (representable ones and ones Guppy rejects: class instances, functions, sets of strings, ...) in
+# synthesised / checked / argument / operand positions, and functions with `T @ comptime` parameters
+# (str, int, bool, float, tuples, generic) that are monomorphised per call site, nested through other
+# monomorphised functions.  Nothing here is specific to one diagnostic: the oracle stays "same program =>
+# same bytes / same rendered diagnostic in every interpreter".
+CT_WORDS = ["alpha", "beta", "gamma", "delta", "cx", "rz", "h", "measure", "reset", "tag", "q0", "out", "left", "right",
+            "zz", "phase", "kappa", "lam"]
+CT_PRE = ('import builtins as py_  # guppylang.std.builtins shadows frozenset/object/range/...\nimport math\n'
+          'T_ = guppy.type_var("T_", copyable=True, droppable=True)\n\n\n'
+          'class K_:\n    def __init__(self, v):\n        self.v = v\n\n    def meth(self):\n        return self.v\n\n\n'
+          'def pyfn_(v):\n    return v\n\n\n'
+          '@guppy\ndef ident_(v: T_) -> T_:\n    return v\n\n\n')
+CT_SCALARS = ["str", "int", "bool", "float"]
+CT_PARAM_TYPES = ["str", "str", "int", "bool", "float", "tuple[int, str]", "T_"]
+
+
+def comptime_family(st):
+    def lit(draw, ty):
+        """source of a Python literal of Guppy type `ty`"""
+        if ty == "str":
+            return repr(draw(st.sampled_from(CT_WORDS)))
+        if ty == "int":
+            return str(draw(st.integers(-9, 40)))
+        if ty == "bool":
+            return str(draw(st.booleans()))
+        if ty == "float":
+            return repr(draw(st.sampled_from([0.25, 1.5, -2.0, 3.75, 10.0, 0.5])))
+        if ty == "tuple[int, str]":
+            return f"({lit(draw, 'int')}, {lit(draw, 'str')})"
+        if ty == "tuple[str, str]":
+            return f"({lit(draw, 'str')}, {lit(draw, 'str')})"
+        raise AssertionError(ty)
+
+    def strset(draw):
+        ws = draw(st.lists(st.sampled_from(CT_WORDS), min_size=3, max_size=6, unique=True))
+        return "{" + ", ".join(repr(w) for w in ws) + "}"
+
+    def supported(draw):
+        ty = draw(st.sampled_from(["str", "str", "int", "bool", "float", "tuple[int, str]", "tuple[str, str]", "list"]))
+        if ty == "list":
+            ety = draw(st.sampled_from(["float", "int", "bool"]))
+            k = draw(st.integers(1, 4))
+            return "[" + ", ".join(lit(draw, ety) for _ in range(k)) + "]", None, "val:list"
+        return lit(draw, ty), ty, "val:" + ty.split("[")[0]
+
+    def unsupported(draw):
+        cls = draw(st.sampled_from(["addr", "addr", "strhash", "strhash", "stable"]))
+        if cls == "addr":  # values whose default repr carries an address
+            e = draw(st.sampled_from(["K_(1)", "K_(2).meth", "pyfn_", "lambda v: v", "py_.object()", "(K_(1), 2)", "[K_(3)]",
+                                      "(w for w in ())", "{'k': K_(4)}"]))
+        elif cls == "strhash":  # values whose repr iterates a string-hashed container
+            s = strset(draw)
+            e = draw(st.sampled_from(["{s}", "py_.frozenset({s})", "(1, {s})", "[{s}]", "{{'k': {s}}}"])).format(s=s)
+        else:
+            e = draw(st.sampled_from(["{1, 2, 3}", "{'a': 1}", "K_", "math", "b'xy'", "1j", "py_.range(3)", "[1, 'a']", "2 ** 70"]))
+        return e, None, "val:unsupported-" + cls
+
+    def use_param(p, ty, k):
+        """statements (indented 4) that use comptime parameter `p` on the int accumulator `x`"""
+        if ty == "str":
+            return [f"    result({p}, x)"]
+        if ty == "int":
+            return [f"    x = x + {p}"]
+        if ty == "bool":
+            return [f"    if {p}:", "        x = x + 1"]
+        if ty == "float":
+            return [f"    if {p} > 0.5:", "        x = x + 2"]
+        if ty == "tuple[int, str]":
+            return [f"    u{k}_, w{k}_ = {p}", f"    x = x + u{k}_"]
+        return [f"    g{k}_ = {p}"]
+
+    @st.composite
+    def build(draw):
+        mode = draw(st.sampled_from(["accepted"] * 4 + ["rejected"] * 4 + ["entry_mono", "decl_mono"]))
+        labels = ["comptime", "comptime:" + mode]
+        if mode in ("entry_mono", "decl_mono"):
+            # an entry point / a declaration may not be generic over comptime values: with several such
+            # parameters the one named in the diagnostic must not depend on the interpreter run
+            k = draw(st.integers(1, 4))
+            names = draw(st.lists(st.sampled_from(CT_WORDS), min_size=k, max_size=k, unique=True))
+            tys = [draw(st.sampled_from(CT_SCALARS + ["nat"])) for _ in names]
+            sig = [f"{n}: {t} @ comptime" for n, t in zip(names, tys)]
+            if mode == "entry_mono":
+                src = f"@guppy\ndef main({', '.join(sig)}) -> None:\n    pass\n"
+            else:
+                args = [lit(draw, "int").lstrip("-") if t == "nat" else lit(draw, t) for t in tys]
+                if draw(st.booleans()):
+                    sig, args = ["x: int"] + sig, ["1"] + args
+                src = (f"@guppy.declare\ndef ext_({', '.join(sig)}) -> None: ...\n\n\n"
+                       f"@guppy\ndef main() -> None:\n    ext_({', '.join(args)})\n")
+            return {"src": src, "labels": labels + ["ct:mono-params-" + ("1" if k == 1 else "2+")], "nontrivial": True}
+
+        # --- module-level Python values
+        vals = []  # (name, ty|None, unsupported?)
+        L = []
+        nv = draw(st.integers(2, 5))
+        for i in range(nv):
+            want_bad = mode == "rejected" and (i == 0 or draw(st.integers(0, 2)) == 0)
+            e, ty, lab = (unsupported if want_bad else supported)(draw)
+            vals.append((f"V{i}_", ty, want_bad))
+            L.append(f"V{i}_ = {e}")
+            labels.append(lab)
+        L += ["", ""]
+        good = [v for v in vals if not v[2]]
+
+        def arg_for(ty, own=()):
+            """a call argument for a comptime parameter of type `ty`"""
+            if mode == "rejected" and draw(st.integers(0, 5)) == 0:
+                return f"comptime({draw(st.sampled_from(vals))[0]})"  # any value: maybe unsupported / mistyped
+            cands = [p for p, t in own if t == ty or (ty == "T_" and t in CT_SCALARS)]
+            if cands and draw(st.booleans()):
+                return draw(st.sampled_from(cands))  # pass the caller's own comptime parameter through
+            want = draw(st.sampled_from(CT_SCALARS)) if ty == "T_" else ty
+            vs = [v for v in good if v[1] == want]
+            r = draw(st.integers(0, 3))
+            if vs and r == 0:
+                return f"comptime({draw(st.sampled_from(vs))[0]})"
+            if r == 1 or want.startswith("tuple"):
+                return f"comptime({lit(draw, want)})"
+            return lit(draw, want)
+
+        # --- functions with comptime parameters (monomorphised per distinct argument tuple)
+        helpers = []  # (name, [param types])
+        for i in range(draw(st.integers(1, 3))):
+            ptys = draw(st.lists(st.sampled_from(CT_PARAM_TYPES), min_size=1, max_size=3))
+            ptys = [t if t != "T_" or "T_" not in ptys[:k] else "str" for k, t in enumerate(ptys)]  # one generic at most
+            own = [(f"p{i}{k}", t) for k, t in enumerate(ptys)]
+            order = draw(st.permutations(["x: int"] + [f"{p}: {t} @ comptime" for p, t in own]))
+            L += ["@guppy", f"def h{i}_({', '.join(order)}) -> int:"]
+            for k, (p, t) in enumerate(own):
+                L += use_param(p, t, k)
+            if helpers and draw(st.booleans()):
+                j = draw(st.integers(0, len(helpers) - 1))
+                args = [("x" if a == "x" else arg_for(a, own)) for a in helpers[j][1]]
+                L.append(f"    x = h{j}_({', '.join(args)})")
+            L += ["    return x", "", ""]
+            helpers.append((f"h{i}_", ["x" if o == "x: int" else o.split(": ")[1].split(" @")[0] for o in order]))
+            if "str" in ptys:
+                labels.append("ct:str-mono")
+
+        # --- main: statements around comptime(...) expressions
+        M = ["@guppy", "def main() -> None:", "    x = 1"]
+        pre = []
+        pool = vals if mode == "rejected" else good
+        for i in range(draw(st.integers(2, 6))):
+            kind = draw(st.sampled_from(["call", "call", "call", "bind", "py", "tuple", "ident", "annot", "ret", "op", "bare"]))
+            v, vty, _bad = draw(st.sampled_from(pool))
+            if kind == "call":
+                name, ptys = draw(st.sampled_from(helpers))
+                M.append(f"    x = {name}({', '.join('x' if a == 'x' else arg_for(a) for a in ptys)})")
+            elif kind == "bind":
+                M.append(f"    a{i}_ = comptime({v})")
+            elif kind == "py":
+                M.append(f"    a{i}_ = py({v})")
+            elif kind == "tuple":
+                M.append(f"    a{i}_ = (comptime({v}), {i})")
+            elif kind == "ident":
+                M.append(f"    a{i}_ = ident_(comptime({v}))")
+            elif kind == "bare":
+                M.append(f"    comptime({v})")
+            elif kind in ("annot", "ret"):
+                ty = vty  # accepted mode: the value's own type; rejected mode: often another one
+                if mode == "rejected" and (ty is None or draw(st.booleans())):
+                    ty = draw(st.sampled_from(CT_SCALARS))
+                if ty is None:
+                    M.append(f"    a{i}_ = comptime({v})")
+                elif kind == "annot":
+                    M.append(f"    a{i}_: {ty} = comptime({v})")
+                else:
+                    pre += ["@guppy", f"def r{i}_() -> {ty}:", f"    return comptime({v})", "", ""]
+                    M.append(f"    a{i}_ = r{i}_()")
+            else:
+                ty = vty if mode == "accepted" else draw(st.sampled_from(CT_SCALARS))
+                if ty == "int":
+                    M.append(f"    x = x + comptime({v})")
+                elif ty == "bool":
+                    M += [f"    if comptime({v}):", "        x = x + 1"]
+                elif ty == "float":
+                    M.append(f"    result({draw(st.sampled_from(CT_WORDS))!r}, comptime({v}))")
+                elif ty == "str":
+                    M.append(f"    result(comptime({v}), x)")
+                else:
+                    M.append(f"    a{i}_ = comptime({v})")
+        M.append("    result('out', x)")
+        src = CT_PRE + "\n".join(L + pre + M) + "\n"
+        return {"src": src, "labels": sorted(set(labels)), "nontrivial": True}
+
+    return build()
+
+
 def worker(ctx):
     from hypothesis import strategies as st
 
@@ -282,11 +474,15 @@ def worker(ctx):
             L += list(snips[:k])
         return {"src": "\n".join(L) + "\n", "labels": ["multi", "multi:" + kind], "nontrivial": True}
 
+    ct = comptime_family(st)
+
     @st.composite
     def item(draw):  # noqa: F811
-        r = draw(st.integers(0, 9))
+        r = draw(st.integers(0, 13))
         if r < 3:
             return draw(multi())
+        if r >= 10:
+            return draw(ct)
         p = draw(prog.programs(n_funcs=(1, 2), max_depth=3, size=0.8))
         if r < 6:
             return {"src": p["src"], "labels": ["accepted-gen"] + p["labels"], "nontrivial": bool(p["nontrivial"])}
